@@ -440,8 +440,70 @@ def _region_chmod(args, v):
     return v.startswith("cache-stale-chmod")
 
 
+def direct_reference_vs_sh(tier):
+    """Oracle validation (not a solver query): the POSIX reference search used by the obligations agrees with
+    /bin/sh `command -v` on real directory trees mirroring sampled model worlds (incl. empty / missing / duplicate /
+    symlinked / relative $PATH entries, non-executable shadows, directories and broken links named like commands)."""
+    import itertools
+    import os
+    import shutil
+    import subprocess
+    import tempfile
+    import time
+
+    t0 = time.time()
+    root = tempfile.mkdtemp(prefix="vf_c08_")
+    n = 0
+    try:
+        samples = []
+        layouts = list(itertools.product(range(5), repeat=3))[:: 7 if tier == "quick" else 2]
+        # (the empty list has no POSIX string form: "" denotes one empty entry, i.e. the cwd - see finding C10-single-empty-path-entry)
+        paths = [["/m/d0"], ["/m/d1", "/m/d0"], ["", "/m/d0"], ["/m/missing", "/m/d2", "/m/d0"], ["/m/ln0", "/m/d1"], ["rel", "/m/d1"],
+                 ["/m/d0", "/m/d0", "/m/d1"], ["/m/d2", "", "/m/ln0"]]
+        for (e0, e1, e2) in layouts:
+            for ec in (0, 1):
+                w = _world(e0, 0, e1, 0, e2, 0, ec)
+                top = os.path.join(root, f"w{n}")
+                n += 1
+                for d in DIRS + [CWD, "/m/cwd/rel"]:
+                    os.makedirs(top + d)
+                os.symlink(top + "/m/d0", top + "/m/ln0")
+                for (d, name), k in w.ent.items():
+                    fp = top + d + "/" + name
+                    if not os.path.isdir(top + d):
+                        continue
+                    if k == "xfile" or k == "file":
+                        with open(fp, "w") as f:
+                            f.write("#!/bin/sh\n")
+                        os.chmod(fp, 0o755 if k == "xfile" else 0o644)
+                    elif k == "dir":
+                        os.makedirs(fp)
+                    elif k == "broken":
+                        os.symlink(fp + ".nowhere", fp)
+                for pth in paths:
+                    real_path = ":".join((top + e if e.startswith("/") else e) for e in pth)
+                    r = subprocess.run(["/bin/sh", "-c", "command -v a"], cwd=top + CWD, env={"PATH": real_path}, capture_output=True, text=True)
+                    sh = r.stdout.strip() or None
+                    ref = posix_search(w, pth, "a")
+                    ref_real = None if ref is None else os.path.realpath(top + ref)
+                    sh_real = None if sh is None else os.path.realpath(os.path.join(top + CWD, sh))
+                    if ref_real != sh_real:
+                        return dict(verdict="error", detail=f"reference POSIX search disagrees with /bin/sh: PATH={pth} world={_show(w)}: reference {ref!r}, sh {sh!r}",
+                                    queries=0, solver_s=0.0)
+                    if len(samples) < 3:
+                        samples.append(dict(PATH=pth, world=_show(w), sh=sh, reference=ref))
+                shutil.rmtree(top, ignore_errors=True)
+        return dict(verdict="confirmed", queries=0, solver_s=0.0, paths=n * len(paths), samples=samples,
+                    detail=f"reference agrees with /bin/sh command -v on {n * len(paths)} (layout, PATH) instances", wall_s=round(time.time() - t0, 2))
+    finally:
+        shutil.rmtree(root, ignore_errors=True)
+
+
 _EP = ["0 <= e00 < 5", "0 <= e01 < 5", "0 <= e10 < 5", "0 <= e11 < 5", "0 <= e20 < 5", "0 <= e21 < 5", "0 <= ec0 < 5"]
 OBLIGATIONS = [
+    Obligation("reference_vs_sh", None, direct=direct_reference_vs_sh,
+               bounds="oracle validation on real directory trees: the reference POSIX search vs /bin/sh `command -v` (sampled layouts x 8 $PATH shapes)",
+               symbolic="none (concrete validation of the reference model)"),
     Obligation("lookup", ob_lookup,
                bounds="3 PATH directories x 2 names, each entry absent / executable file / non-executable file / directory / broken link; a "
                       "same-named file in the cwd; $PATH of 0..2 (quick) / 0..3 (thorough) entries over {d0,d1,d2, symlink to d0, missing, '', relative}; "
